@@ -1,5 +1,268 @@
-/- Model for C02 (core Lean only, no Mathlib). -/
+/-
+Model of the `GeoBox` views of `odc/geo/geobox.py` (core Lean only, no Mathlib).
+
+A `GeoBox` is the triple `(shape = (ny, nx), affine, crs)` (geobox.py:104-123); every view
+below is a function of that triple only, exactly as in the code.  Reals are `Rat`
+(DESIGN §3.1), Python ints are `Int`.  Pixel / world points are `(x, y)` pairs, `x` = column.
+The CRS is an opaque tag (`0` = `None`); CRS *comparison* belongs to C01, here only
+"the view carries the tag of its parent" is observed.
+
+The model follows the code *after* the three `fix:` commits of branch `fix-C02`
+(zoom_to(int) shape, `gbox[-1]`, `BoundingBox.from_transform` for rotated grids).
+The pre-fix behaviour is kept as `…Old` definitions in `Props/C02.lean` only to prove the
+concrete counterexamples.
+-/
 import OdcGeo.Model.IO
+import OdcGeo.Model.Affine
+import OdcGeo.Model.C17
 namespace OdcGeo.C02
+open OdcGeo.C17 (PIdx NSlice normSlice)
+
+structure GeoBox where
+  ny : Int
+  nx : Int
+  A : Aff
+  crs : Nat
+  deriving DecidableEq, Repr
+
+abbrev Pt := Rat × Rat
+
+/-! ### constants: exact values of the Python doubles used as tolerances -/
+
+/-- `1e-10` (`is_affine_st(A, tol=1e-10)`, math.py:340) -/
+def tolST : Rat := mkRat 7737125245533627 77371252455336267181195264
+/-- `0.01` (`GeoBox.from_bbox(..., tol=0.01)`, geobox.py:504) -/
+def tolSnap : Rat := mkRat 5764607523034235 576460752303423488
+/-- `0.1` (`_round_to_res`, geobox.py:1246) -/
+def tenth : Rat := mkRat 3602879701896397 36028797018963968
+
+def rabs (x : Rat) : Rat := if x < 0 then -x else x
+
+/-! ### `pix2wld`, `wld2pix` (geobox.py:201-205) -/
+
+def pix2wld (g : GeoBox) (p : Pt) : Pt := g.A.apply p
+
+/-- `(~A) * (x, y)`; `~A` raises `TransformNotInvertibleError` when `det = 0`
+(reported as `valueError`). -/
+def wld2pix (g : GeoBox) (w : Pt) : Res Pt := do
+  let Ai ← g.A.inv?
+  pure (Ai.apply w)
+
+/-! ### footprint and bounding box (geom.py:276-288, 1218-1233) -/
+
+/-- pixel-space corners in the order of `polygon_from_transform` -/
+def corners (g : GeoBox) : List Pt :=
+  [(0, 0), (0, (g.ny : Rat)), ((g.nx : Rat), (g.ny : Rat)), ((g.nx : Rat), 0)]
+
+/-- `polygon_from_transform(shape, A)` : closed exterior ring -/
+def extent (g : GeoBox) : List Pt := (corners g ++ [(0, 0)]).map g.A.apply
+
+structure BBox where
+  left : Rat
+  bottom : Rat
+  right : Rat
+  top : Rat
+  deriving DecidableEq, Repr
+
+def min4 (a b c d : Rat) : Rat := min (min a b) (min c d)
+def max4 (a b c d : Rat) : Rat := max (max a b) (max c d)
+
+/-- `BoundingBox.from_transform(shape, A)` (as repaired: hull of the four corner images) -/
+def boundingbox (g : GeoBox) : BBox :=
+  let p0 := g.A.apply (0, 0)
+  let p1 := g.A.apply (0, (g.ny : Rat))
+  let p2 := g.A.apply ((g.nx : Rat), (g.ny : Rat))
+  let p3 := g.A.apply ((g.nx : Rat), 0)
+  ⟨min4 p0.1 p1.1 p2.1 p3.1, min4 p0.2 p1.2 p2.2 p3.2,
+   max4 p0.1 p1.1 p2.1 p3.1, max4 p0.2 p1.2 p2.2 p3.2⟩
+
+/-! ### `is_affine_st`, `coordinates`, `resolution` (math.py:340-349, 494-505; geobox.py:753-780) -/
+
+def isAffineST (A : Aff) : Bool := decide (rabs A.b < tolST) && decide (rabs A.d < tolST)
+
+/-- `numpy.arange(n) * r + (t + r/2)` -/
+def labels (n : Int) (r t : Rat) : List Rat :=
+  (List.range n.toNat).map (fun (i : Nat) => (i : Rat) * r + (t + r / 2))
+
+/-- `GeoBox.coordinates` → `(ys, xs)`; `ValueError` unless axis aligned. -/
+def coordinates (g : GeoBox) : Res (List Rat × List Rat) :=
+  if isAffineST g.A then .ok (labels g.ny g.A.e g.A.f, labels g.nx g.A.a g.A.c)
+  else .error .valueError
+
+/-- `resolution_from_affine(A)` → `(rx, ry)`.
+
+Rotated / sheared branch: `decompose_rws` takes `WS = cholesky(AᵀA)ᵀ =
+[[n, w], [0, m]]` with `n = √(a²+d²)`, `w = (ab+de)/n`, `m = √(b²+e²-w²)`, flips the
+sign of the last row when `det (A·WS⁻¹) < 0` and returns the diagonal.  The two square
+roots are inputs (`n`, `m`) whose defining equations are hypotheses of the theorems
+(DESIGN §3.1); cholesky raises `LinAlgError` (a `ValueError`) for a singular matrix. -/
+def resolution (g : GeoBox) (n m : Rat) : Res (Rat × Rat) :=
+  if isAffineST g.A then .ok (g.A.a, g.A.e)
+  else if g.A.det = 0 then .error .valueError
+  else .ok (n, if g.A.det / (n * m) < 0 then -m else m)
+
+/-! ### cropping: `compute_crop`, `__getitem__` (geobox.py:305-339, 708-710) -/
+
+/-- index expression given to `gbox[...]`: a bare int / slice, or a 2-tuple -/
+inductive Roi where
+  | one (s : PIdx)
+  | two (sy sx : PIdx)
+  deriving DecidableEq, Repr
+
+/-- `gbox[roi]`.  A bare int `k` or slice `s` becomes `(k, :)` / `(s, :)`; then
+`roi_normalise` (per axis `_norm_slice`), `ty, tx = starts`, `ny, nx = roi_shape` and
+`A * translation(tx, ty)`.  No clamping to the parent shape is done by the code. -/
+def crop (g : GeoBox) (roi : Roi) : GeoBox :=
+  let (sy, sx) := match roi with
+    | .one s => (s, PIdx.slc none none)
+    | .two a b => (a, b)
+  let ry := normSlice sy g.ny
+  let rx := normSlice sx g.nx
+  ⟨ry.stop - ry.start, rx.stop - rx.start,
+   g.A * Aff.translation (rx.start : Rat) (ry.start : Rat), g.crs⟩
+
+/-! ### pixel-side and world-side composition (geobox.py:877-906) -/
+
+/-- `gbox * T` -/
+def mulPix (g : GeoBox) (T : Aff) : GeoBox := ⟨g.ny, g.nx, g.A * T, g.crs⟩
+/-- `T * gbox` -/
+def mulWld (T : Aff) (g : GeoBox) : GeoBox := ⟨g.ny, g.nx, T * g.A, g.crs⟩
+
+/-! ### pad, pad_wh, crop/expand (geobox.py:925-963) -/
+
+def pad (g : GeoBox) (padx : Int) (pady : Option Int) : GeoBox :=
+  let pady := match pady with | none => padx | some v => v   -- `padx if pady is None else pady`
+  ⟨g.ny + pady * 2, g.nx + padx * 2, g.A * Aff.translation (-(padx : Rat)) (-(pady : Rat)), g.crs⟩
+
+/-- Python `x % m` (sign of the divisor); `ZeroDivisionError` for `m = 0`. -/
+def pyMod (x m : Int) : Res Int := if m = 0 then .error .zeroDiv else .ok (Int.fmod x m)
+
+/-- `align_up(x, align) = (x + align - 1) - ((x + align - 1) % align)` (math.py:105-122) -/
+def alignUp (x align : Int) : Res Int := do
+  let y := x + (align - 1)
+  let r ← pyMod y align
+  pure (y - r)
+
+def padWh (g : GeoBox) (alignx : Int) (aligny : Option Int) : Res GeoBox := do
+  let aligny := match aligny with | none => alignx | some v => v
+  let ny ← alignUp g.ny aligny
+  let nx ← alignUp g.nx alignx
+  pure ⟨ny, nx, g.A, g.crs⟩
+
+/-- `gbox.crop(shape)` / `gbox.expand(shape)` -/
+def resize (g : GeoBox) (ny nx : Int) : GeoBox := ⟨ny, nx, g.A, g.crs⟩
+
+/-! ### translate, neighbours, flips, rotate, centre pixel (geobox.py:995-1079) -/
+
+def translatePix (g : GeoBox) (tx ty : Rat) : GeoBox := mulPix g (Aff.translation tx ty)
+
+def left (g : GeoBox) : GeoBox := translatePix g (-(g.nx : Rat)) 0
+def right (g : GeoBox) : GeoBox := translatePix g (g.nx : Rat) 0
+def top (g : GeoBox) : GeoBox := translatePix g 0 (-(g.ny : Rat))
+def bottom (g : GeoBox) : GeoBox := translatePix g 0 (g.ny : Rat)
+
+def flipy (g : GeoBox) : GeoBox := mulPix g (Aff.translation 0 (g.ny : Rat) * Aff.scale 1 (-1))
+def flipx (g : GeoBox) : GeoBox := mulPix g (Aff.translation (g.nx : Rat) 0 * Aff.scale (-1) 1)
+
+/-- `Affine.rotation(deg, pivot)` with `(c, s) = (cos, sin)` of the angle -/
+def rotationAbout (c s : Rat) (p : Pt) : Aff :=
+  ⟨c, -s, p.1 - p.1 * c + p.2 * s, s, c, p.2 - p.1 * s - p.2 * c⟩
+
+/-- `gbox.rotate(deg)`: pivot `c0 = A * (nx*0.5, ny*0.5)` -/
+def rotate (g : GeoBox) (c s : Rat) : GeoBox :=
+  let c0 := g.A.apply ((g.nx : Rat) * (1 / 2), (g.ny : Rat) * (1 / 2))
+  mulWld (rotationAbout c s c0) g
+
+/-- `gbox.center_pixel = gbox[ny // 2, nx // 2]` -/
+def centerPixel (g : GeoBox) : GeoBox := crop g (.two (.idx (g.ny / 2)) (.idx (g.nx / 2)))
+
+/-! ### zooming (geobox.py:341-375, 965-993, 1219-1241) -/
+
+/-- `max(1, math.ceil(x))` -/
+def ceil1 (x : Rat) : Int := max 1 x.ceil
+
+/-- `compute_zoom_out(factor)`; `s / factor` raises for `factor = 0`. -/
+def zoomOut (g : GeoBox) (factor : Rat) : Res GeoBox :=
+  if factor = 0 then .error .zeroDiv
+  else .ok ⟨ceil1 ((g.ny : Rat) / factor), ceil1 ((g.nx : Rat) / factor),
+            g.A * Aff.scale factor factor, g.crs⟩
+
+/-- `compute_zoom_to(shape=(ny', nx'))`: `sy, sx = N / float(n)` -/
+def zoomToShape (g : GeoBox) (ny nx : Int) : Res GeoBox :=
+  if ny = 0 ∨ nx = 0 then .error .zeroDiv
+  else .ok ⟨ny, nx, g.A * Aff.scale ((g.nx : Rat) / (nx : Rat)) ((g.ny : Rat) / (ny : Rat)), g.crs⟩
+
+/-- `compute_zoom_to(n)` for a single number (as repaired): `factor = nmax / n`, sides
+`max(1, ceil(s * n / nmax))`. -/
+def zoomToNum (g : GeoBox) (n : Rat) : Res GeoBox :=
+  let nmax : Int := max g.ny g.nx
+  if n = 0 then .error .zeroDiv
+  else if nmax = 0 then .error .zeroDiv
+  else
+    let factor := (nmax : Rat) / n
+    .ok ⟨ceil1 ((g.ny : Rat) * n / (nmax : Rat)), ceil1 ((g.nx : Rat) * n / (nmax : Rat)),
+         g.A * Aff.scale factor factor, g.crs⟩
+
+/-- `ceil(maybe_int(q, tol))` for `q ≥ 0` (math.py:40-75): a fractional part below `tol`
+is dropped, otherwise round up. -/
+def snapCeil (q tol : Rat) : Int :=
+  if q - (q.floor : Rat) < tol then q.floor else q.ceil
+
+/-- one axis of `snap_grid(x0, x1, res, None, tol)` (math.py:208-213) → `(offset, n)` -/
+def snapGridTight (x0 x1 res tol : Rat) : Res (Rat × Int) :=
+  if res > 0 then .ok (x0, max 1 (snapCeil ((x1 - x0) / res) tol))
+  else if res = 0 then .error .zeroDiv
+  else .ok (x1, max (snapCeil ((x1 - x0) / (-res)) tol) 1)
+
+/-- `compute_zoom_to(resolution=(rx, ry))` = `GeoBox.from_bbox(self.boundingbox,
+resolution=…, tight=True)` (geobox.py:360-366, 562-572) -/
+def zoomToRes (g : GeoBox) (rx ry : Rat) : Res GeoBox := do
+  let bb := boundingbox g
+  let (offx, nx) ← snapGridTight bb.left bb.right rx tolSnap
+  let (offy, ny) ← snapGridTight bb.bottom bb.top ry tolSnap
+  pure ⟨ny, nx, Aff.translation offx offy * Aff.scale rx ry, g.crs⟩
+
+/-- `scaled_down_geobox(gbox, scaler)`: `X // scaler + (1 if X % scaler else 0)` -/
+def scaledDown (g : GeoBox) (k : Int) : Res GeoBox :=
+  if ¬ (k > 1) then .error .assertion
+  else
+    let f := fun (X : Int) => X / k + (if X % k ≠ 0 then 1 else 0)
+    .ok ⟨f g.ny, f g.nx, g.A * Aff.scale (k : Rat) (k : Rat), g.crs⟩
+
+/-! ### buffered (geobox.py:665-684, 1244-1246) -/
+
+/-- `_round_to_res(value, res) = int(ceil((value - 0.1*|res|) / |res|))` -/
+def roundToRes (value res : Rat) : Res Int :=
+  let r := rabs res
+  if r = 0 then .error .zeroDiv else .ok ((value - tenth * r) / r).ceil
+
+/-- `gbox.buffered(xbuff, ybuff)`; `n`, `m` are the square roots needed by `resolution`
+for a rotated grid (ignored when axis aligned). -/
+def bufferedCore (g : GeoBox) (n m : Rat) (xbuff ybuff : Rat) : Res GeoBox := do
+  let (rx, ry) ← resolution g n m
+  let by_ ← roundToRes ybuff ry
+  let bx ← roundToRes xbuff rx
+  pure ⟨g.ny + 2 * by_, g.nx + 2 * bx, g.A * Aff.translation (-(bx : Rat)) (-(by_ : Rat)), g.crs⟩
+
+def buffered (g : GeoBox) (n m : Rat) (xbuff : Rat) (ybuff : Option Rat) : Res GeoBox :=
+  bufferedCore g n m xbuff (match ybuff with | none => xbuff | some v => v)   -- `if ybuff is None: ybuff = xbuff`
+
+/-! ### GCP geobox (gcp.py:129-168, 216-273)
+
+`GCPGeoBox` keeps `(shape, affine, crs)` plus a shared mapping whose pixel→world
+function `P` is an abstract parameter; `pix2wld = P ∘ affine`.  `__getitem__`, `pad`,
+`pad_wh`, `zoom_out`, `zoom_to`, `center_pixel` call the very same `compute_*` helpers
+on the triple, so the model re-uses `crop`, `pad`, `padWh`, `zoomOut`, `zoomToShape`,
+`zoomToNum`, `centerPixel` on the triple and leaves `P` untouched. -/
+
+def gcpPix2wld (P : Pt → Pt) (g : GeoBox) (p : Pt) : Pt := P (g.A.apply p)
+
+/-- `GCPGeoBox.wld2pix`: `(~affine) * w2p(x, y)` -/
+def gcpWld2pix (Q : Pt → Pt) (g : GeoBox) (w : Pt) : Res Pt := do
+  let Ai ← g.A.inv?
+  pure (Ai.apply (Q w))
+
+/-- `GCPGeoBox.approx`: `GeoBox(shape, mapping.approx * affine, crs)` -/
+def gcpApprox (B : Aff) (g : GeoBox) : GeoBox := mulWld B g
 
 end OdcGeo.C02
